@@ -153,6 +153,10 @@ func c06Scenarios(tier string) []*Scenario {
 	add("standalone-wait", []Spec{B(1, W)}, 0, []ExeSpec{{Script: hold(W)}}, false, standalone(1, 10, "wait"))
 	add("standalone-ctx", []Spec{B(1, 0)}, 0, []ExeSpec{{Script: hold(W)}}, false, standalone(1, 10, "ctx"))
 	add("standalone-2", []Spec{B(2, W)}, 0, []ExeSpec{{Script: hold(W)}, {Script: hold(W)}}, false, standalone(0, W, "try"))
+	// a parked waiter, and a newcomer (execution, standalone TryAcquirePermit) arriving at the very instant the holder releases
+	add("release-waiter-newcomer", []Spec{B(1, W)}, 0, []ExeSpec{{Script: hold(20)}, {Script: hold(10), StartAt: 1}, {Script: hold(10), StartAt: 20}}, true)
+	add("release-waiter-newcomer-nowait", []Spec{B(1, W)}, 0, []ExeSpec{{Script: hold(20)}, {Script: hold(10), StartAt: 1}}, false, standalone(20, 10, "try"))
+	add("release-waiter-newcomer-standalone-holder", []Spec{B(1, W)}, 0, []ExeSpec{{Script: hold(10), StartAt: 1}, {Script: hold(10), StartAt: 20}}, false, standalone(0, 20, "try"))
 	// wrapped in other policies
 	T := func(l time.Duration) Spec { return Spec{Kind: KTimeout, Limit: l} }
 	add("timeout(bulkhead)", []Spec{T(W), B(1, 4*W)}, 1, []ExeSpec{{Script: hold(W)}, {Script: hold(10), StartAt: 1}}, false)
